@@ -126,14 +126,48 @@ def to_smt2(prelude, ob, sliced=False) -> str:
         pc, axioms = slice_pc(ob)
     if hasattr(prelude, "relevant_prelude"):
         prelude = prelude.relevant_prelude(axioms + pc + [ob.goal])
+    weighted = []
     for a in prelude:
-        s.add(a)
+        if z3.is_quantifier(a) and a.weight() != 1:
+            weighted.append(a)  # the benchmark printer drops :weight annotations: these are printed separately
+        else:
+            s.add(a)
     for a in axioms:
         s.add(a)
     for p in pc:
         s.add(p)
     s.add(z3.Not(ob.goal))
-    return s.to_smt2()
+    return with_weighted(s.to_smt2(), weighted)
+
+
+def with_weighted(text: str, weighted) -> str:
+    """Append quantified axioms that carry a :weight annotation (printed with sexpr, which keeps the annotation) to an
+    SMT-LIB benchmark text, declaring the function symbols that only they use."""
+    if not weighted:
+        return text
+    import re
+
+    declared = set(re.findall(r"\(declare-fun ([^ ]+) ", text))
+    decls, asserts = [], []
+    for a in weighted:
+        seen, stack = set(), [a.body()]
+        while stack:
+            t = stack.pop()
+            if t.get_id() in seen:
+                continue
+            seen.add(t.get_id())
+            if z3.is_app(t) and t.decl().kind() == z3.Z3_OP_UNINTERPRETED:
+                nm = t.decl().name()
+                if nm not in declared and "|%s|" % nm not in declared:
+                    declared.add(nm)
+                    decls.append(t.decl().sexpr())
+            if z3.is_quantifier(t):
+                stack.append(t.body())
+            else:
+                stack.extend(t.children())
+        asserts.append("(assert %s)" % a.sexpr())
+    idx = text.rfind("(check-sat)")
+    return text[:idx] + "\n".join(decls + asserts) + "\n" + text[idx:]
 
 
 def _run(cmd: List[str], timeout: float) -> Tuple[str, str, float]:
@@ -256,15 +290,19 @@ def discharge(prelude: List[Any], obligations: List[Any], timeout: float = 10.0,
                 if hasattr(prelude, "relevant_prelude") else list(prelude)
             for k in range(len(pre)):
                 sv = z3.Solver()
+                wv = []
                 for j, a in enumerate(pre):
                     if j != k:
-                        sv.add(a)
+                        if z3.is_quantifier(a) and a.weight() != 1:
+                            wv.append(a)
+                        else:
+                            sv.add(a)
                 for a in ob.axioms:
                     sv.add(a)
                 for pz in ob.pc:
                     sv.add(pz)
                 sv.add(z3.Not(ob.goal))
-                variants.append((r, write(idx, sv.to_smt2(), ".drop%d" % k), k))
+                variants.append((r, write(idx, with_weighted(sv.to_smt2(), wv), ".drop%d" % k), k))
 
         def vjob(item):
             r, vp, k = item
